@@ -18,6 +18,9 @@ OPS += [
  # flatten(map(g)(outer)) as a network with dynamically created inner sources (Ops/FlatPlug.lean, Inv/FlatPlugSafe.lean)
  ("flatten_network", "{So Lo Si Li αo αi : Type} {Mo : Machine So Lo αo Int} {Mi : Machine Si Li αi Int} {initOf : Int → Si}\n    (H : FlatPlugSafe.HypF Mo Mi initOf)",
   "flatPlug Mo Mi initOf", "FlatPlugSafe.flatPlug_basicSafe H s hs", "FlatPlugSafe"),
+ # a pipeable operator as a MEMBER of concat! (Ops/PlugOp.lean, Inv/PlugOpSafe.lean): concat!(a, skip(1)(b)), concat!(take(2)(a), b), …
+ ("member_of_concat", "{S1 L1 β : Type} {M1 : Machine S1 L1 β β} (h1 : Pipeable M1) (n : Nat) (hn : 0 < n) (j : Nat)",
+  "plugOp j M1 (Concat.machine β n)", "PlugOpSafe.plugOp_concat_basicSafe h1 n hn j s hs", "PlugOpSafe"),
 ]
 READABLE = {
  "01": ("GreetFirstOnce", "greetFirstOnce_of_clean hs (fun v hv => h.1 v (by unfold G.viols; exact List.mem_append_right _ hv)) k",
